@@ -11,6 +11,8 @@ Definition RO (k : key) (sd : side) (p q : Z) (kd : okind) (tf : tif) : oreq := 
 Definition RC (k : key) (id : option N) : creq := mkCReq k id.
 Definition Mt (oid : N) (t f : Z) : meta := mkMeta oid t f.
 Definition Od (k : key) (sd : side) (p q : Z) (kd : okind) (tf : tif) (st : ostate) : order := mkOrder k sd p q kd tf st.
+Definition L1 (t : Z) (b a : option (Z * Z)) : l1book := mkL1 t b a.
+Definition MD (b : l1book) (l : option (Z * Z)) : mdata := mkMD b l.
 Definition SO {R} (s : list R) (e : list (R * errk)) : sendout R := mkSendOut s e.
 
 (* ---- case type ---------------------------------------------------------------------------- *)
@@ -34,7 +36,7 @@ Inductive result :=
 Record obs := mkObs {
   ob_trading : bool;
   ob_deliv : list (list xreq);
-  ob_insts : list (omap * option pos * option (Z * Z));
+  ob_insts : list (omap * option pos * mdata);
   ob_res : result }.
 
 Record step := mkStep { st_op : op; st_g : gscript; st_close : close_script; st_obs : obs }.
@@ -80,9 +82,14 @@ Definition pos_eqb (a b : pos) : bool :=
 Definition errk_eqb (a b : errk) : bool :=
   match a, b with KIndex, KIndex | KTerminated, KTerminated | KUnhealthy, KUnhealthy => true | _, _ => false end.
 Definition omap_eqb : omap -> omap -> bool := list_eqb (pair_eqb N.eqb order_eqb).
-Definition iobs_eqb (a b : omap * option pos * option (Z * Z)) : bool :=
+Definition zz_eqb : Z * Z -> Z * Z -> bool := pair_eqb Z.eqb Z.eqb.
+Definition l1_eqb (a b : l1book) : bool :=
+  Z.eqb (l1_time a) (l1_time b) && option_eqb zz_eqb (l1_bid a) (l1_bid b) && option_eqb zz_eqb (l1_ask a) (l1_ask b).
+Definition mdata_eqb (a b : mdata) : bool :=
+  l1_eqb (md_l1 a) (md_l1 b) && option_eqb zz_eqb (md_last a) (md_last b).
+Definition iobs_eqb (a b : omap * option pos * mdata) : bool :=
   omap_eqb (fst (fst a)) (fst (fst b)) && option_eqb pos_eqb (snd (fst a)) (snd (fst b)) &&
-  option_eqb (pair_eqb Z.eqb Z.eqb) (snd a) (snd b).
+  mdata_eqb (snd a) (snd b).
 
 (** multiset equality (used where the code iterates a hash map) *)
 Definition count_b {A} (eqb : A -> A -> bool) (x : A) (l : list A) : nat := length (filter (eqb x) l).
@@ -161,7 +168,7 @@ Definition nat_seqN (n : nat) : list N := map N.of_nat (seq 0 n).
 Definition obs_matches (p : bool) (s : state) (m : mres) (o : obs) : bool :=
   Bool.eqb (trading s) (ob_trading o) &&
   list_eqb (seq_eqb p xreq_eqb) (map (mbox (links s)) (nat_seqN (length (links s)))) (ob_deliv o) &&
-  list_eqb iobs_eqb (map (fun i => (i_orders i, i_pos i, i_last i)) (insts s)) (ob_insts o) &&
+  list_eqb iobs_eqb (map (fun i => (i_orders i, i_pos i, i_data i)) (insts s)) (ob_insts o) &&
   res_eqb p m (ob_res o).
 
 Fixpoint corr_run (s : state) (steps : list step) : bool :=
@@ -189,6 +196,8 @@ Definition event_insts (ev : event) : list N :=
   match ev with
   | EvCommand c => cmd_insts c
   | EvOrderSnapshot o _ => [k_inst (o_key o)]
+  | EvAccountSnapshot l => map (fun p => k_inst (o_key (fst p))) l
+  | EvMarketL1 i _ _ => [i]
   | EvCancelResponse k _ => [k_inst k]
   | EvTrade i _ _ => [i]
   | EvMarketTrade i _ _ => [i]
@@ -203,8 +212,12 @@ Definition step_insts (st : step) : list N :=
   end.
 Definition step_valid (n : N) (st : step) : bool :=
   forallb (fun i => N.ltb i n) (step_insts st) &&
-  match st_op st with OpProcess (EvTrade _ _ q) => Z.ltb 0 q | _ => true end &&
+  match st_op st with
+  | OpProcess (EvTrade _ _ q) => Z.ltb 0 q
+  | OpProcess (EvMarketL1 _ _ b) => l1_ok b          (* exact mid-price, non-zero total amount *)
+  | _ => true
+  end &&
   Nat.eqb (length (ob_insts (st_obs st))) (N.to_nat n).
 Definition valid_case (c : case) : bool :=
-  state_wf (c_init c) &&
+  state_wf (c_init c) && forallb (fun i => l1_ok (md_l1 (i_data i))) (insts (c_init c)) &&
   forallb (step_valid (N.of_nat (length (insts (c_init c))))) (c_steps c).
